@@ -81,11 +81,35 @@ fn gen_content(w: &mut World, rng: &mut Rng, k: &(Vec<u8>, Vec<u8>)) -> MMessage
     m
 }
 
+/// The same bytes with the case of every ASCII letter flipped (None when there is no letter).
+fn flip_case(b: &[u8]) -> Option<Vec<u8>> {
+    let f: Vec<u8> = b.iter().map(|c| if c.is_ascii_lowercase() { c.to_ascii_uppercase() } else { c.to_ascii_lowercase() }).collect();
+    if f == b {
+        None
+    } else {
+        Some(f)
+    }
+}
+
 fn sweep(w: &mut World) -> Option<String> {
     let contents = w.contents.clone();
     for m in &contents {
         if let Some(d) = w.g.check_status(&mut w.u, m) {
             return Some(d);
+        }
+        // the same content in another letter case is other content (and another key)
+        for field in 0..3 {
+            let mut v = m.clone();
+            let flipped = match field {
+                0 => flip_case(&m.source_address).map(|f| v.source_address = f),
+                1 => flip_case(&m.source_chain).map(|f| v.source_chain = f),
+                _ => flip_case(&m.message_id).map(|f| v.message_id = f),
+            };
+            if flipped.is_some() && !contents.contains(&v) {
+                if let Some(d) = w.g.check_status(&mut w.u, &v) {
+                    return Some(format!("variant(letter case of field {}): {}", field, d));
+                }
+            }
         }
         // single-field variations of the true content must never read as approved
         let mut v = m.clone();
@@ -392,7 +416,11 @@ pub fn run(ctx: &Ctx, rep: &mut Report) {
                             class = "consume-stranger-auth".into();
                         }
                         4 => {
-                            m.source_address.push(b'0');
+                            // another source address: longer, or the same in another letter case
+                            match flip_case(&m.source_address) {
+                                Some(f) if rng.chance(1, 2) => m.source_address = f,
+                                _ => m.source_address.push(b'0'),
+                            }
                             class = "consume-wrong-source-address".into();
                         }
                         5 => {
